@@ -1,15 +1,67 @@
-(* C02 (supervisor core) - INTERIM statement file: the full simulation theorem for mon_C02 is being
-   proved in Sup/RelC02.v; until it lands, this file states what is already machine-checked for every
-   accepted history of the Sup model: the observer's picture (on which the monitor holds_C02 is
-   evaluated) agrees with the model state. *)
+(* C02  Restart policy: relaunch exactly when availability says so.
+   Statements only; every proof is `exact <lemma>` (the development is in Sup/LemC02.v, RelC02t.v, RelC02b.v,
+   RelC02c.v, RelC02d.v, RelC02f.v, RelC02e.v).
+
+   What is proved.  For EVERY configuration (any number of processes, policies, max_restarts, back-off values,
+   dependency lists - no well-formedness condition is needed), every history `evs` of trace points that the
+   supervisor model Sup accepts (`accept (init cs ord) evs = Some s`: all interleavings, all exit-code
+   sequences, all instants of stop / restart / shutdown requests, any number of API calls), the monitor
+   `holds_C02` is true unless the history went through one of the known check-then-act windows.
+
+   What the monitor `mon_C02` (Sup/Monitors.v) checks, in plain words.  The observer folds the history into
+   facts per instance: how often its command was started (o_launches), the exit code of its last command
+   (o_code), whether a back-off elapsed since that exit (o_elapsed), whether a stop of the instance or a
+   project shutdown including it was requested (o_stopreq: no_restart, stop_enter(cancel), stop_pending,
+   shutdown_order), and per name the reported Restarts counter (r_restarts).  At each event it checks:
+     (1) launch of a command by an instance that was launched before (a RELAUNCH): its last command exited
+         with a code ec such that the policy allows a relaunch (always: any ec, on_failure: ec <> 0, no /
+         exit_on_failure: never), max_restarts = 0 or launches so far <= max_restarts, a back-off elapsed
+         since that exit, and no stop/shutdown was requested for the instance;
+     (2) restart_decision(true): no stop/shutdown was requested for the instance;
+     (3) backoff_wait(secs): secs = max(1, backoff_seconds) of the process;
+     (4) proc_ended(i, Completed) (the instance GAVE UP after an exit with code ec): the policy forbids the
+         relaunch for ec, or max_restarts > 0 is reached by the reported Restarts counter, or a stop was
+         requested - i.e. no relaunch is ever omitted.
+   The reported restart count equals the number of back-offs begun (r_restarts is incremented exactly at
+   backoff_wait, model and observer agree on it: Sup/RelCore.v rc_name).
+
+   Window hypotheses (sticky observer flags, known findings): W_C02 = w_commit (F20/F21) || w_sdlag (F37) ||
+   w_dup (F25) || w_zombie (F38).  Clauses (1), (3), (4) alone need only w_commit || w_sdlag (C02_core). *)
 From Coq Require Import List ZArith NArith Bool.
 From PC.Base Require Import Assoc.
-From PC.Sup Require Import Model Monitors RelCore Agreement RelC02.
+From PC.Sup Require Import Model Monitors LemC02 RelC02t RelC02e.
 
-Theorem C02_observer_agrees_with_model : forall cs ord evs s,
-  accept (init cs ord) evs = Some s -> Rc cs s (final_obs cs evs).
-Proof. exact sup_agreement. Qed.
-Print Assumptions C02_observer_agrees_with_model.
+Theorem C02_restart_policy : forall cs ord evs s,
+  accept (init cs ord) evs = Some s -> W_C02 (final_obs cs evs) = false -> holds_C02 cs evs = true.
+Proof. exact C02_main. Qed.
+Print Assumptions C02_restart_policy.
+
+(* the clauses about launches, back-off and giving up (1)(3)(4) need only the commit and sdlag windows *)
+Theorem C02_restart_policy_core : forall cs ord evs s,
+  accept (init cs ord) evs = Some s -> W_C02_core (final_obs cs evs) = false -> holds cs mon_C02_core evs = true.
+Proof. exact C02_core. Qed.
+Print Assumptions C02_restart_policy_core.
+
+(* the same, unfolded into a statement about every position of the history *)
+Theorem C02_restart_policy_declarative : forall cs ord evs s,
+  accept (init cs ord) evs = Some s -> W_C02 (final_obs cs evs) = false ->
+  forall pre th e post, evs = pre ++ (th, e) :: post ->
+  let o := final_obs cs pre in
+  (forall i, e = ELaunch true -> get th (o_th o) = Some i -> o_launches (oi_get o i) <> 0 ->
+     exists ec, o_code (oi_get o i) = Some ec /\
+       policy_allows (pol (conf_of cs (o_nm (oi_get o i)))) ec = true /\
+       (maxr (conf_of cs (o_nm (oi_get o i))) = 0 \/ o_launches (oi_get o i) <= maxr (conf_of cs (o_nm (oi_get o i)))) /\
+       o_elapsed (oi_get o i) = true /\ o_stopreq (oi_get o i) = false) /\
+  (forall i, e = ERestartDecision true -> get th (o_th o) = Some i -> o_stopreq (oi_get o i) = false) /\
+  (forall i secs, e = EBackoffWait secs -> get th (o_th o) = Some i ->
+     secs = N.max 1 (backoff (conf_of cs (o_nm (oi_get o i))))) /\
+  (forall i ec, e = EProcEnded i SCompleted -> o_code (oi_get o i) = Some ec ->
+     policy_allows (pol (conf_of cs (o_nm (oi_get o i)))) ec = false \/
+     (maxr (conf_of cs (o_nm (oi_get o i))) <> 0 /\
+      maxr (conf_of cs (o_nm (oi_get o i))) <= r_restarts (on_get o (o_nm (oi_get o i)))) \/
+     o_stopreq (oi_get o i) = true).
+Proof. exact C02_declarative. Qed.
+Print Assumptions C02_restart_policy_declarative.
 
 (* the decision table of isRestartable (process.go:284-316), for all policies, codes and counters *)
 Theorem C02_decision_table : forall stopped p c maxr restarts,
@@ -17,3 +69,19 @@ Theorem C02_decision_table : forall stopped p c maxr restarts,
   stopped = false /\ policy_allows p c = true /\ (maxr = 0 \/ restarts < maxr).
 Proof. exact restart_ok_spec. Qed.
 Print Assumptions C02_decision_table.
+
+(* without a window hypothesis the statement is false of the model (and of the code: finding F37): policy
+   always, the command exits, StopProcess sets isStopped during the back-off but has not yet entered
+   stopProcess when the back-off elapses - the command is launched again.  24 accepted events. *)
+Theorem C02_restart_policy_refuted : exists cs ord evs s,
+  accept (init cs ord) evs = Some s /\ holds_C02 cs evs = false /\ holds cs mon_C02_core evs = false.
+Proof. exact C02_refuted. Qed.
+Print Assumptions C02_restart_policy_refuted.
+
+(* non-vacuity: an accepted history of 28 events (on_failure, max_restarts 1: exit 1, back-off, relaunch,
+   exit 2, gives up) that stays out of every window and exercises all four clauses *)
+Example C02_nonvacuous_example :
+  (exists s, accept (init (ex_cfg POnFailure 1) false) ex_good = Some s) /\
+  W_C02 (final_obs (ex_cfg POnFailure 1) ex_good) = false /\ length ex_good = 28 /\
+  holds_C02 (ex_cfg POnFailure 1) ex_good = true.
+Proof. exact C02_nonvacuous. Qed.
